@@ -21,16 +21,27 @@ Record lrm := {
   lr_id : Z
 }.
 
-(* update: two early returns, then set_transform + InnerMatrix::new *)
-Definition lr_gate (stds mean vals : list f64) (vecs : list (list f64)) : bool :=
+(* update: three early returns (non-finite scales / translation; non-finite eigenvalues /
+   eigenvectors; a scale whose reciprocal is not a positive finite number or an eigenvalue that is
+   not strictly positive), then set_transform + InnerMatrix::new *)
+Definition lr_scale_ok (s : f64) : bool := fgt s fzero && is_finite (frecip s).
+Definition lr_val_ok (v : f64) : bool := fgt v fzero.
+(* the gate as it was before the repair (finite checks only) *)
+Definition lr_gate_finite (stds mean vals : list f64) (vecs : list (list f64)) : bool :=
   all_finite stds && all_finite mean && all_finite vals && forallb all_finite vecs.
+Definition lr_gate (stds mean vals : list f64) (vecs : list (list f64)) : bool :=
+  lr_gate_finite stds mean vals vecs && forallb lr_scale_ok stds && forallb lr_val_ok vals.
+
+Definition lr_install (st : lrm) (stds mean vals : list f64) (mu : list f64) : lrm :=
+  {| lr_stds := stds; lr_inv := map frecip stds; lr_mean := mean;
+     lr_inner := Some (map fsqrt vals, map (fun v => frecip (fsqrt v)) vals, mu);
+     lr_id := lr_id st + 1 |}.
 
 Definition lr_update (st : lrm) (stds mean vals : list f64) (vecs : list (list f64)) (mu : list f64) : lrm :=
-  if lr_gate stds mean vals vecs then
-    {| lr_stds := stds; lr_inv := map frecip stds; lr_mean := mean;
-       lr_inner := Some (map fsqrt vals, map (fun v => frecip (fsqrt v)) vals, mu);
-       lr_id := lr_id st + 1 |}
-  else st.
+  if lr_gate stds mean vals vecs then lr_install st stds mean vals mu else st.
+(* before the repair *)
+Definition lr_update_prefix (st : lrm) (stds mean vals : list f64) (vecs : list (list f64)) (mu : list f64) : lrm :=
+  if lr_gate_finite stds mean vals vecs then lr_install st stds mean vals mu else st.
 
 (* adapt: fewer than three draws in the window: nothing happens; otherwise compute_update may give
    up (None) and nothing happens either *)
